@@ -26,6 +26,7 @@ _Bool nondet_bool (void); int nondet_int (void); long nondet_long (void);
 #define REACH(tag) __CPROVER_assert (0, "REACH:" tag)
 void _dbus_real_assert (dbus_bool_t condition, const char *condition_text, const char *file, int line, const char *func)
 { __CPROVER_assert (condition, "dbus assertion"); __CPROVER_assume (condition); }
+void _dbus_verbose_real (const char *file, const int line, const char *function, const char *format, ...) { }
 void _dbus_real_assert_not_reached (const char *explanation, const char *file, int line) { __CPROVER_assert (0, "dbus assert_not_reached"); __CPROVER_assume (0); }
 #define NC 3
 static char c_obj[NC + 1], c_ctx, c_timeout; static BusConnectionData D[NC + 1]; static BusConnections conns;
@@ -49,14 +50,17 @@ static const long T_SEC[NC + 1] = { 960, 970, 970, 990 }, T_USEC[NC + 1] = { 500
 static const long T_SEC[NC + 1] = { 990, 960, 980, 990 }, T_USEC[NC + 1] = { 500000, 500000, 500000, 0 };      /* ages 10 s, 40 s, 20 s: NOT oldest first */
 #endif
 #define AGE_US(i) ((NOW_SEC - T_SEC[i]) * 1000000L + (NOW_USEC - T_USEC[i]))
+/* the timer value is the remaining time of connection i in whole milliseconds (truncated): v ms <= remaining < v + 1 ms */
+#define REMAINING_IS(i) (fixed_timeout >= 0 ? (long) g_set_value == (limit_us - AGE_US (i)) / 1000L : (g_set_value >= 0 && g_set_value <= in_timeout))
 
 /* n is a constant in each call, so that the list shape and the times are concrete for symbolic execution */
-static void run (const int n)
+static void run (const int n, const int fixed_timeout)
 {
   DBusList *L[NC] = { &L0, &L1, &L2 };
   conns.refcount = 1; conns.context = (BusContext *) &c_ctx; conns.expire_timeout = (DBusTimeout *) &c_timeout; conns.incomplete = NULL; conns.n_incomplete = n; conns.completed = NULL;
   now_sec = NOW_SEC; now_usec = NOW_USEC;
-  in_timeout = nondet_int (); __CPROVER_assume (in_timeout >= 0);
+  if (fixed_timeout >= 0) in_timeout = fixed_timeout;                               /* concrete limit: everything incl. the timer value is exact */
+  else { in_timeout = nondet_int (); __CPROVER_assume (in_timeout >= 0); }           /* every limit: the timer value is only bounded */
   for (int i = 0; i < NC + 1; i++)
     { D[i].connections = &conns; D[i].connection = (DBusConnection *) &c_obj[i]; D[i].connection_tv_sec = T_SEC[i]; D[i].connection_tv_usec = T_USEC[i]; closed[i] = 0; }
   for (int i = 0; i < NC; i++) if (i < n)
@@ -75,14 +79,15 @@ static void run (const int n)
   POST (IMP (sorted, (closed[0] == 1) == x0 && (closed[1] == 1) == x1 && (closed[2] == 1) == x2), "expire_incomplete: oldest-first list => EVERY incomplete connection whose age >= auth_timeout is closed");
   POST (g_set_calls == 1, "expire_incomplete: the expiry timer is re-armed exactly once");
   POST (IMP (sorted && x0 == (n > 0) && x1 == (n > 1) && x2 == (n > 2), g_set_value == -1), "expire_incomplete: nothing young left => timer disabled (-1)");
-  POST (IMP (sorted && n > 0 && !x0, g_set_value == (int) ((limit_us - AGE_US (0)) / 1000)), "expire_incomplete: otherwise the timer fires when the oldest young connection reaches auth_timeout");
-  POST (IMP (sorted && n > 1 && x0 && !x1, g_set_value == (int) ((limit_us - AGE_US (1)) / 1000)), "expire_incomplete: (second) timer at the oldest young connection");
-  POST (IMP (sorted && n > 2 && x1 && !x2, g_set_value == (int) ((limit_us - AGE_US (2)) / 1000)), "expire_incomplete: (third) timer at the oldest young connection");
+  POST (IMP (sorted && n > 0 && !x0, REMAINING_IS (0)), "expire_incomplete: otherwise the timer fires when the oldest young connection reaches auth_timeout");
+  POST (IMP (sorted && n > 1 && x0 && !x1, REMAINING_IS (1)), "expire_incomplete: (second) timer at the oldest young connection");
+  POST (IMP (sorted && n > 2 && x1 && !x2, REMAINING_IS (2)), "expire_incomplete: (third) timer at the oldest young connection");
   POST (conns.n_incomplete == n && conns.incomplete == (n > 0 ? L[0] : NULL), "expire_incomplete: the list itself is not modified here (removal happens when the close is dispatched)");
   POST (g_logs == closed[0] + closed[1] + closed[2], "expire_incomplete: every timed-out connection is logged");
 #if VERIF_SORTED
   if (n == 3 && closed[0] && closed[1] && !closed[2]) REACH ("two-expired-one-young"); if (n == 3 && closed[2]) REACH ("all-expired"); if (n == 0) REACH ("empty"); if (n > 0 && !closed[0]) REACH ("none-expired");
   if (n == 3 && in_timeout == 30000 && closed[1] && !closed[2]) REACH ("exact-deadline-is-expired");
+  if (fixed_timeout == 30001 && g_set_value == 1) REACH ("timer-1ms"); if (fixed_timeout == 45000 && g_set_value == 5000) REACH ("timer-5s");
 #else
   if (n == 3 && !closed[0] && x1) REACH ("unsorted-list-leaves-an-old-one"); if (n == 3 && closed[0] && closed[1] && closed[2]) REACH ("all-expired");
 #endif
@@ -90,5 +95,9 @@ static void run (const int n)
 void harness (void)
 {
   int n = nondet_int ();
-  if (n == 0) run (0); else if (n == 1) run (1); else if (n == 2) run (2); else run (3);
+  /* every auth_timeout (timer value bounded only: the double -> int equivalence does not terminate in the solver) */
+  if (n == 0) run (0, -1); else if (n == 1) run (1, -1); else if (n == 2) run (2, -1); else if (n == 3) run (3, -1);
+  /* a catalogue of concrete limits around the three ages (timer value exact) */
+  else if (n == 4) run (3, 30000); else if (n == 5) run (3, 30001); else if (n == 6) run (3, 45000); else if (n == 7) run (3, 29999);
+  else if (n == 8) run (2, 35000); else if (n == 9) run (1, 50000); else if (n == 10) run (3, 0); else run (3, 2147483647);
 }
